@@ -10,6 +10,8 @@ int cmd_uci_replay(const Args&);
 int cmd_search_preserves(const Args&);
 int cmd_transpose(const Args&);
 int cmd_encode_table(const Args&);
+int cmd_attack_table(const Args&);
+int cmd_kpk_table(const Args&);
 }
 
 #ifdef VH_EXTRA_DECLS
@@ -30,5 +32,7 @@ int main(int argc, char** argv)
     if (cmd == "search-preserves") return vh::cmd_search_preserves(a);
     if (cmd == "transpose") return vh::cmd_transpose(a);
     if (cmd == "encode-table") return vh::cmd_encode_table(a);
+    if (cmd == "attack-table") return vh::cmd_attack_table(a);
+    if (cmd == "kpk-table") return vh::cmd_kpk_table(a);
     return vh_dispatch_extra(cmd, a);
 }
